@@ -442,52 +442,56 @@ def layoutStmts (toEnd : Option Nat) : List CStmt → List Instr
   | s :: ss => layoutStmt (toEnd.map (· + CStmt.sizes ss)) s ++ layoutStmts toEnd ss
 end
 
-/-! ### locals: first appearance in text order -/
+/-! ### variables of a kind: first appearance in text order (locals table, per-handler globals table) -/
 
 mutual
-def Expr.locs : Expr → List Name
-  | .var .loc n => [n]
-  | .bin _ a b => a.locs ++ b.locs
-  | .un _ a => a.locs
-  | .field a => a.locs
-  | .call _ as => Expr.locsList as
-  | .mcall o _ as => o.locs ++ Expr.locsList as
-  | .list as => Expr.locsList as
-  | .plist as => Expr.locsList as
-  | .the _ _ as => Expr.locsList as
-  | .oprop _ o => o.locs
-  | .chunk _ a b d => a.locs ++ b.locs ++ d.locs
+def Expr.vars (vk : VarKind) : Expr → List Name
+  | .var k n => if k = vk then [n] else []
+  | .bin _ a b => a.vars vk ++ b.vars vk
+  | .un _ a => a.vars vk
+  | .field a => a.vars vk
+  | .call _ as => Expr.varsList vk as
+  | .mcall o _ as => o.vars vk ++ Expr.varsList vk as
+  | .list as => Expr.varsList vk as
+  | .plist as => Expr.varsList vk as
+  | .the _ _ as => Expr.varsList vk as
+  | .oprop _ o => o.vars vk
+  | .chunk _ a b d => a.vars vk ++ b.vars vk ++ d.vars vk
   | _ => []
-def Expr.locsList : List Expr → List Name
+def Expr.varsList (vk : VarKind) : List Expr → List Name
   | [] => []
-  | e :: es => e.locs ++ Expr.locsList es
+  | e :: es => e.vars vk ++ Expr.varsList vk es
 end
 
 mutual
-def Stmt.locs : Stmt → List Name
-  | .set lv v => lv.locs ++ v.locs
-  | .put _ v lv => v.locs ++ lv.locs
-  | .delete t => t.locs
-  | .hilite t => t.locs
-  | .call _ as => Expr.locsList as
-  | .mcall o _ as => o.locs ++ Expr.locsList as
+def Stmt.vars (vk : VarKind) : Stmt → List Name
+  | .set lv v => lv.vars vk ++ v.vars vk
+  | .put _ v lv => v.vars vk ++ lv.vars vk
+  | .delete t => t.vars vk
+  | .hilite t => t.vars vk
+  | .call _ as => Expr.varsList vk as
+  | .mcall o _ as => o.vars vk ++ Expr.varsList vk as
   | .exit => []
-  | .tell o b => o.locs ++ Stmt.locsList b
-  | .ifThen c t e => c.locs ++ Stmt.locsList t ++ Stmt.locsList e
-  | .repeatWhile c b => c.locs ++ Stmt.locsList b
-  | .repeatWith v a b _ body => v.locs ++ a.locs ++ b.locs ++ Stmt.locsList body
-  | .repeatIn v l b => v.locs ++ l.locs ++ Stmt.locsList b
+  | .tell o b => o.vars vk ++ Stmt.varsList vk b
+  | .ifThen c t e => c.vars vk ++ Stmt.varsList vk t ++ Stmt.varsList vk e
+  | .repeatWhile c b => c.vars vk ++ Stmt.varsList vk b
+  | .repeatWith v a b _ body => v.vars vk ++ a.vars vk ++ b.vars vk ++ Stmt.varsList vk body
+  | .repeatIn v l b => v.vars vk ++ l.vars vk ++ Stmt.varsList vk b
   | .exitRepeat => []
-def Stmt.locsList : List Stmt → List Name
+def Stmt.varsList (vk : VarKind) : List Stmt → List Name
   | [] => []
-  | s :: ss => s.locs ++ Stmt.locsList ss
+  | s :: ss => s.vars vk ++ Stmt.varsList vk ss
 end
 
 def dedup : List Name → List Name → List Name
   | [], acc => acc.reverse
   | x :: xs, acc => if acc.contains x then dedup xs acc else dedup xs (x :: acc)
 
-def Handler.locals (h : Handler) : List Name := dedup (Stmt.locsList h.body) []
+def Handler.locals (h : Handler) : List Name := dedup (Stmt.varsList .loc h.body) []
+
+/-- globals the handler uses (what its own `global` lines declare, minus the script-level ones) -/
+def Handler.globalsUsed (h : Handler) (scriptGlobals : List Name) : List Name :=
+  (dedup (Stmt.varsList .glob h.body) []).filter fun g => !scriptGlobals.contains g
 
 /-! ### stage C: container -/
 
@@ -537,37 +541,40 @@ structure HCode where
   nameIdx : Nat
   args : List Nat        -- name indices (0xffff for the unnamed receiver of a method)
   locals : List Nat
+  globals : List Nat     -- per-handler globals table (declared by `global` lines inside the handler)
   code : Bytes
   deriving Repr, Inhabited
 
-def lowerHandler (handlers : List Name) (h : Handler) : M HCode := do
+def lowerHandler (handlers : List Name) (scriptGlobals : List Name) (h : Handler) : M HCode := do
   let ni ← nameIdx h.name
   let args ← h.params.mapM nameIdx
   let locals := h.locals
   let locIdx ← locals.mapM nameIdx
+  let globIdx ← (h.globalsUsed scriptGlobals).mapM nameIdx
   let ctx : Ctx := { handlers, params := h.params, locals, isMethod := h.isMethod, inTell := false }
   let cs ← lowerStmts ctx h.body
   let is := layoutStmts none cs ++ [.op1 (if h.isMethod then 0x02 else 0x01)]
   if is.all (fun i => decide i.WF) then
-    pure { nameIdx := ni, args := (if h.isMethod then [0xffff] else []) ++ args, locals := locIdx, code := encodeInstrs is }
+    pure { nameIdx := ni, args := (if h.isMethod then [0xffff] else []) ++ args, locals := locIdx, globals := globIdx, code := encodeInstrs is }
   else fail "operand out of range (jump distance or count too large)"
 
-def lowerHandlers (handlers : List Name) : List Handler → M (List HCode)
+def lowerHandlers (handlers : List Name) (scriptGlobals : List Name) : List Handler → M (List HCode)
   | [] => pure []
   | h :: hs => do
-    let c ← lowerHandler handlers h
-    let cs ← lowerHandlers handlers hs
+    let c ← lowerHandler handlers scriptGlobals h
+    let cs ← lowerHandlers handlers scriptGlobals hs
     pure (c :: cs)
 
-/-- per-handler block: code (padded to even), argument names, local names; returns (bytes, record) -/
+/-- per-handler block: code (padded to even), argument names, local names, global names; returns (bytes, record) -/
 def handlerBlock (h : HCode) (off : Nat) : Bytes × Bytes :=
   let code := padEven h.code
   let argOff := off + code.length
   let locOff := argOff + 2 * h.args.length
-  let endOff := locOff + 2 * h.locals.length
-  let blk := code ++ h.args.flatMap be16 ++ h.locals.flatMap be16
+  let globOff := locOff + 2 * h.locals.length
+  let endOff := globOff + 2 * h.globals.length
+  let blk := code ++ h.args.flatMap be16 ++ h.locals.flatMap be16 ++ h.globals.flatMap be16
   let rec_ := be16 h.nameIdx ++ be16 0xffff ++ be32 h.code.length ++ be32 off ++ be16 h.args.length ++ be32 argOff
-    ++ be16 h.locals.length ++ be32 locOff ++ be16 0 ++ be32 endOff ++ be32 0 ++ be16 0 ++ be16 0 ++ be32 endOff
+    ++ be16 h.locals.length ++ be32 locOff ++ be16 h.globals.length ++ be32 globOff ++ be32 0 ++ be16 0 ++ be16 0 ++ be32 endOff
   (blk, rec_)
 
 def handlerBlocks : List HCode → Nat → Bytes × Bytes
@@ -600,7 +607,7 @@ def compileM (s : Script) (scrNum : Nat) : M Compiled := do
   let propIdx ← s.props.mapM nameIdx
   let globIdx ← s.globals.mapM nameIdx
   let meIdx ← (if s.factory = [] then pure 0 else nameIdx "me".toList)
-  let hs ← lowerHandlers hnames s.handlers
+  let hs ← lowerHandlers hnames s.globals s.handlers
   let st ← get
   let (blocks, records) := handlerBlocks hs 92
   -- a factory's property table starts with three fixed slots (unnamed, `me`, 0), then the instance variables
@@ -631,7 +638,7 @@ def compile (o : Options) (s : Script) : Except String Compiled :=
 
 /-- one handler compiled on its own (constant pool restarted; name table and local-handler numbering as given) -/
 def compileHandlerAlone (names : List Name) (handlers : List Name) (h : Handler) : Except String Bytes :=
-  match lowerHandler handlers h { names, consts := [] } with
+  match lowerHandler handlers [] h { names, consts := [] } with
   | .ok (c, _) => .ok c.code
   | .error e => .error e
 
